@@ -40,6 +40,8 @@ structure RibSt where
   implRefsOk : Bool := true
   partialFlush : Bool := false
   lastHooks : List HookEv := []
+  lastResolved : List (Bool × NI × Key) := []
+  resolvedOn : Bool := false
   /-- fold of the implementation's notifications since hook registration (C16 monitor) -/
   hookFold : Option (Map EKey Payload) := none
   line : Nat := 0
@@ -111,7 +113,7 @@ def handleAdd (st : RibSt) (op : Op) (oks fails : List Nat) (fatal : Bool) : Rib
   | none =>
     st.diff "add.cascade-not-accepted" s!"op={op.id} impl.oks={showIds oks} impl.fails={showIds fails}"
   | some (m', out) =>
-    let st := { st with model := m', lastHooks := out.hooks }
+    let st := { st with model := m', lastHooks := out.hooks, lastResolved := out.resolved }
     let mOks := out.oks.map (·.id)
     if mOks ≠ oks then st.diff "add.oks" s!"op={op.id} model={showIds mOks} impl={showIds oks}"
     else if out.fails ≠ fails then st.diff "add.fails" s!"op={op.id} model={showIds out.fails} impl={showIds fails}"
@@ -124,7 +126,7 @@ def handleDel (st : RibSt) (op : Op) (oks fails : List Nat) (fatal : Bool) : Rib
   let st := ackFold st oks
   if st.diverged then st else
   let (m', out) := st.model.del op
-  let st := { st with model := m', lastHooks := out.hooks }
+  let st := { st with model := m', lastHooks := out.hooks, lastResolved := out.resolved }
   let mOks := out.oks.map (·.id)
   if mOks ≠ oks then st.diff "del.oks" s!"op={op.id} model={showIds mOks} impl={showIds oks}"
   else if out.fails ≠ fails then st.diff "del.fails" s!"op={op.id} model={showIds out.fails} impl={showIds fails}"
@@ -139,7 +141,7 @@ def handleFlush (st : RibSt) (nis : List NI) (ok : Bool) : RibSt :=
   let st := if ok then st else st.monfail "c08" "flush reported an error"
   if st.diverged then st else
   let (m', hk) := st.model.flush nis
-  let st := { st with model := m', lastHooks := hk }
+  let st := { st with model := m', lastHooks := hk, lastResolved := [] }
   if ok then st else st.diff "flush.ok" "model=true impl=false"
 
 def parseEnts (gs : List (List Tok)) : Option (Map EKey Payload) :=
@@ -265,6 +267,27 @@ def handleObsHooks (st : RibSt) (evs : List HookEv) : RibSt :=
   let st := { st with lastHooks := [] }
   if permEq a b then st else st.diff "hooks" s!"model={a.map showHook} impl={b.map showHook}"
 
+def parseResolved (gs : List (List Tok)) : Option (List (Bool × NI × Key × Bool)) :=
+  gs.mapM (fun g => match g with
+    | [kind, ni, key, has] => do
+      let ni ← strOf ni
+      let key ← keyOf key
+      let has ← boolOf has
+      some (tokStr kind == "add", ni, key, has)
+    | _ => none)
+
+def handleObsResolved (st : RibSt) (evs : List (Bool × NI × Key × Bool)) : RibSt :=
+  -- C16 monitor: the snapshot contains the announced entry for an ADD and lacks it for a DELETE
+  let st := match evs.find? (fun e => e.1 != e.2.2.2) with
+    | some e => st.monfail "c16" s!"resolved-entry snapshot for {if e.1 then "ADD" else "DELETE"} of {e.2.1}/{showKey e.2.2.1} {if e.2.2.2 then "contains" else "lacks"} the announced entry"
+    | none => st
+  let st := if evs.length > 0 then st.covr "resolved.nonempty" else st
+  if st.diverged then st else
+  let a := st.lastResolved
+  let b := evs.map (fun e => (e.1, e.2.1, e.2.2.1))
+  let st := { st with lastResolved := [] }
+  if permEq a b then st else st.diff "resolved" s!"model={a.map (fun e => (e.1, e.2.1, showKey e.2.2))} impl={b.map (fun e => (e.1, e.2.1, showKey e.2.2))}"
+
 /-- one line of a RIB-level trace -/
 def ribLine (st : RibSt) (ts : List Tok) : RibSt :=
   let st := { st with line := st.line + 1 }
@@ -325,6 +348,15 @@ def ribLine (st : RibSt) (ts : List Tok) : RibSt :=
       match parseHooks ((groups args).drop 1) with
       | some evs => handleObsHooks st evs
       | none => bad st
+    else if c = "rib.resolvedhook" then { st with resolvedOn := true }
+    else if c = "obs.resolved" then
+      match parseResolved ((groups args).drop 1) with
+      | some evs => handleObsResolved st evs
+      | none => bad st
+    else if c = "obs.resolved.stable" then
+      match args with
+      | [b] => if tokStr b == "1" then st else st.monfail "c16" "a resolved-entry snapshot changed after it was delivered"
+      | _ => bad st
     else if c = "crash" then
       (st.monfail "c12" "the implementation panicked").diff "crash" "the implementation panicked"
     else if c = "end" then st
